@@ -38,15 +38,15 @@ def clustered_setup(n, sizes, dims=1, grid=4, kind="generic", seed=0, outlier_pr
     return data, rows
 
 
-def make_results(data, samples, chains, cluster_rows=None, insertion_order=None):
-    """chains: {chain_num: [(tree_or_dict, score), ...]}."""
+def make_results(data, samples, chains, cluster_rows=None, insertion_order=None, thin=1):
+    """chains: {chain_num: [(tree_or_dict, score), ...]}.  thin: entry k records sampler iteration (k-1)*thin, as a thinned run does."""
     results = {}
     order = insertion_order if insertion_order is not None else sorted(chains)
     for c in order:
         trace = []
         for i, (t, score) in enumerate(chains[c]):
             td = t if isinstance(t, dict) else t.to_dict()
-            trace.append({"iter": i, "time": 0.0, "alpha": 1.0, "log_p_one": score, "tree": td})
+            trace.append({"iter": (i if thin == 1 else max(0, i - 1) * thin), "time": 0.0, "alpha": 1.0, "log_p_one": score, "tree": td})
         results[c] = {"data": data, "samples": samples, "trace": trace, "chain_num": c}
     return results
 
